@@ -18,7 +18,7 @@ ASSUMPTIONS = [
     "stray files that do not have the <2>/<rest> layout are outside the property",
 ]
 MONITORS = "independent before/after os.walk listing of the store compared with a set-difference model; return value; byte snapshot of survivors"
-REQUIRED_COUNTERS = ["stores_with_a_partial_existence_index", "used_as/generator-bound-to-its-thread", "used_as/generator-that-fails", "calls_relying_on_the_default_mode_with_cache_odb", "file_objects_with_a_directory_twin", "collecting_handle_wrote_first", "listings_from_store_of_other_md5_flavour", "unpacked_dirs_planted", "repeat_calls_in_one_process", "stale_listing_loaded_before_gc", "path_spelling/trailing-slash", "path_spelling/dotdot", "nfc_nfd_sibling_listings", "used_as/generator", "used_as/iterator", "gc_calls", "expanding_calls_with_used_dir", "dry_calls", "readonly_calls", "real_removals", "foreign_algo_ids_in_used"]
+REQUIRED_COUNTERS = ["crowded_prefix_calls", "stores_with_a_partial_existence_index", "used_as/generator-bound-to-its-thread", "used_as/generator-that-fails", "calls_relying_on_the_default_mode_with_cache_odb", "file_objects_with_a_directory_twin", "collecting_handle_wrote_first", "listings_from_store_of_other_md5_flavour", "unpacked_dirs_planted", "repeat_calls_in_one_process", "stale_listing_loaded_before_gc", "path_spelling/trailing-slash", "path_spelling/dotdot", "nfc_nfd_sibling_listings", "used_as/generator", "used_as/iterator", "gc_calls", "expanding_calls_with_used_dir", "dry_calls", "readonly_calls", "real_removals", "foreign_algo_ids_in_used"]
 
 
 def _put(root, oid, data, mode):
@@ -387,4 +387,39 @@ def run_shard(ctx):
             _o, _t, strays = list_store(root)
             ctx.drop(d)
 
-        ctx.guard(case, one)
+        def crowded_prefix(case=case, rng=rng):
+            """thousands of objects under one two-letter prefix (more than any per-prefix estimate or page), a small used set"""
+            import hashlib
+
+            from ..oracle import store_snapshot
+
+            d = ctx.fresh("gcx")
+            root = os.path.join(d, "store")
+            cls = rng.choice(["local", "base"])
+            mined, i_ = [], 0
+            want_n = rng.choice([2000, 2300])
+            while len(mined) < want_n:
+                b_ = b"crowd %d %d" % (case, i_)
+                i_ += 1
+                o_ = hashlib.md5(b_).hexdigest()  # noqa: S324
+                if o_.startswith("00"):
+                    mined.append((o_, b_))
+            others = [(hashlib.md5(b"other %d %d" % (case, j_)).hexdigest(), b"other %d %d" % (case, j_)) for j_ in range(40)]  # noqa: S324
+            for o_, b_ in mined + others:
+                _put(root, o_, b_, 0o444)
+            odb = env.odb_of_class(cls, root)
+            present = {o_ for o_, _b in mined + others}
+            used = {o_ for o_ in present if rng.random() < 0.12}
+            res.evaluated()
+            res.count("gc_calls")
+            res.count("crowded_prefix_calls")
+            res.nontrivial("crowded", len(present), len(used), cls)
+            n = gc(odb, [env.HI("md5", o_) for o_ in sorted(used)], jobs=rng.choice([None, 1, 4]))
+            after = set(store_snapshot(root))
+            if after != used or n != len(present) - len(used):
+                res.violation("unused-object-kept/crowded-prefix" if after - used else "used-object-removed/crowded-prefix" if used - after else "wrong-count/crowded-prefix",
+                              f"store with {len(mined)} objects under prefix 00: gc returned {n} (model {len(present) - len(used)}), kept {len(after - used)} unused, removed {len(used - after)} used",
+                              case=case, detail={"class": cls, "present": len(present), "used": len(used)})
+            ctx.drop(d)
+
+        ctx.guard(case, crowded_prefix if (case % 3000 == 17) else one)
